@@ -114,3 +114,28 @@ Fixpoint changes (prev : job) (obs : list oobs) : nat :=
   | [] => O
   | o :: t => ((if job_eqb (o_job o) prev then 0 else 1) + changes (o_job o) t)%nat
   end.
+
+(* ---- the four entry points of the generic driver (extracted by Extract.v) ---- *)
+Definition run_case (inp : list Z) : list Z :=
+  let '(j0, ops) := decode inp in
+  flat_map enc_obs (observe j0 ops).
+
+(* property decision on the implementation's observable; 0 = holds, otherwise clause number
+   (9 = the observable does not parse: crash or truncated log) *)
+Definition prop_case (inp obs : list Z) : Z :=
+  let '(j0, ops) := decode inp in
+  match parse_obs j0 (length ops) obs with
+  | Some o => prop_code j0 ops o
+  | None => 9
+  end.
+
+(* non-trivial: the model run issues at least one recorded API call and the job changes in at
+   least two operations *)
+Definition nontrivial_case (inp : list Z) : bool :=
+  let '(j0, ops) := decode inp in
+  let obs := observe j0 ops in
+  negb (Nat.eqb (length (flat_map o_effs obs)) 0) && Nat.leb 2 (changes j0 obs).
+
+(* no known finding on the current tree: the same-node finding (Spec.finding_code, sig 1 of the
+   old variant) was repaired by commit 025e424, so a same-node eviction is a plain violation now *)
+Definition finding_sig (inp obs : list Z) : Z := 0.
